@@ -5,7 +5,7 @@ import warnings
 import numpy as np
 
 from traits.api import (Any, Array, Dict, Enum, HasTraits, Instance, Int, List,
-                        Map, Set, Str, Trait, TraitType, Tuple, Union)
+                        Map, Range, Set, Str, Trait, TraitType, Tuple, Union)
 
 LEVEL = "model_checking"
 RULE = ("every history up to the depth bound over operations on one instance "
@@ -30,9 +30,11 @@ MIN_OUTCOMES = {t: ["default-read", "siblings-checked", "dyn-default-once",
 TIMEOUT = {"quick": 1200, "thorough": 7200}
 
 NAMES = ["c", "al", "ad", "l", "d", "s", "inst", "dyn", "tl", "tls", "u",
-         "arr", "fl", "bg", "border", "frame", "mp", "bag", "pick"]
+         "arr", "fl", "bg", "border", "frame", "mp", "bag", "pick", "lo",
+         "rng"]
 #: property-style trait types keep their value under another __dict__ key
-STORE = {"bag": "_traits_cache_bag", "pick": "_traits_cache_pick"}
+STORE = {"bag": "_traits_cache_bag", "pick": "_traits_cache_pick",
+         "rng": "_traits_cache_rng"}
 
 
 def skey(n):
@@ -79,6 +81,12 @@ def make_classes():
             frame = Shade
             mp = Map({"a": 1, "b": 2})
             bag = Bag()
+            #: a Range whose bounds and default are named by other traits;
+            #: its number type follows the bounds of the *instance*
+            lo = Any(0)
+            hi = Any(10)
+            dv = Any(2)
+            rng = Range(low="lo", high="hi", value="dv")
             choices = List(Str, value=["a", "b", "c"])
             pick = Enum(values="choices")
 
@@ -144,6 +152,8 @@ def plain(v):
         return sorted(v)
     if isinstance(v, HasTraits):
         return "<%s>" % type(v).__name__
+    if isinstance(v, float):
+        return ("float", v)         # 2.0 is not the declared default 2
     return v
 
 
@@ -198,7 +208,7 @@ def submenu():
 VALID = {"c": 11, "al": [5], "ad": {"k": 1}, "l": [4], "d": {"k": 2},
          "s": {6}, "dyn": [8], "tl": ([3], 3), "tls": ([3], "q"), "u": [2],
          "fl": [1], "bg": "green", "border": "green", "mp": "b",
-         "bag": [3], "pick": "c"}
+         "bag": [3], "pick": "c", "lo": 0.5, "rng": 3}
 
 
 class World:
@@ -207,6 +217,10 @@ class World:
         self.cls = self.K if actor_cls == "K" else self.KS
         self.a = self.cls()
         self.sibs = [("K", self.K()), ("KS", self.KS())]
+        if actor_cls == "K":
+            # an int-bounded instance reads its Range before anything else
+            # happens (for actor KS the acting instance may be the first)
+            self.sibs[0][1].rng
         self.handlers = {}
         self.reported = {}       # name -> id of default reported at del time
         self.dels = 0
@@ -281,13 +295,18 @@ def apply(ctx, w, ev, hist, check):
                     sum(len(f.log) for f in w.handlers.values()) != hcalls:
                 bad("default-read-notified", "first read of %s called a "
                     "handler" % n)
-            if getattr(a, n) is not v:
+            v2 = getattr(a, n)
+            if v2 is not v and not (n == "rng" and type(v2) is type(v)
+                                    and v2 == v):
+                # (the dynamic Range computes its number on every read)
                 bad("second-read-differs", "second read of %s returned a "
                     "different object" % n)
             has_it = n in a._instance_traits() and \
                 getattr(w, "added_" + n, False)
             if not has_it:
                 want = baseline()[w.cls.__name__][n]
+                if n == "rng" and isinstance(a.__dict__.get("lo"), float):
+                    want = plain(float(want))   # float bounds, float values
                 if plain(v) != want:
                     bad("wrong-default", "first read of %s gives %r, "
                         "declared default %r" % (n, plain(v), want))
